@@ -53,12 +53,15 @@ RULE = ("streams: (trees-qc) random operation trees over {+,-,x,/,neg,number+,nu
         "{sqrt,exp,log,acos,atan,atan2,**float,**hyperdual,number**hyperdual,norm} vs central finite differences of the value function "
         "(gradient, Hessian via differences of the gradient and via second differences of the value, order-1 vs order-2 "
         "gradient, Hessian symmetry); (primitives) every concrete class of primitives.py x generated non-singular "
-        "geometries (incl. prescribed dihedral angles around 0, +-90, 180 degrees and near-linear bends) x random atom "
+        "geometries (dihedrals and impropers at 86, 90, 93.5, -88, -91 degrees in every run, at the edges of that band, near 0 and +-180 and at generic angles; near-linear bends) x random atom "
         "assignments x non-unit coefficients: value/derivative/second_derivative vs finite differences, exact zeros for "
         "uninvolved atoms, symmetry, rigid-motion invariance, placement vs the Coq model; (idpp, cconf) energy vs "
         "gradient by finite differences (step scaled to the closest pair) and vs the Coq pair model - on ordinary images, on "
         "images with one pair swept over 0.27, 0.3, 0.4, 0.48, 0.52, 0.7, 1, 1.6, 2.5, 4, 6 A, on crowded middle images of "
-        "interpolations in which two atoms pass within 0.3-0.9 A of each other, and on expanded geometries; (cpp) stationarity of the C++ minimisers' results; "
+        "interpolations in which two atoms pass within 0.3-0.9 A of each other, and on expanded geometries; (idpp-seq) "
+        "one IDPP object and one image: __call__ / grad at successive geometries in several orders, each result vs a fresh "
+        "object and vs finite differences at the current geometry; (atan2-band) atan2 trees with the result inside, at the "
+        "edge of and outside 0.1 rad of +-pi/2; (cpp) stationarity of the C++ minimisers' results; "
         "(triples) translated lambda triples vs DifferentiableMath; (singular) a small malformed stream of singular "
         "geometries whose outcome is only histogrammed. distinct = distinct generated case keys per stream")
 
@@ -431,6 +434,30 @@ def stream_trees(ctx, A, full):
     return nfind, terms, descr
 
 
+def stream_atan2_band(ctx, A, full):
+    """atan2 trees whose result is deliberately within / at the edge of / outside 0.1 rad of +-pi/2."""
+    rng = ctx.rng
+    nfind = 0
+    angles = [86.0, 90.0, 93.5, -88.0, -91.0, 84.5, 95.5, -84.5, -95.5, 84.0, 96.0, 10.0, 170.0, -135.0, 45.0]
+    for rep in range(6 if full else 1):
+        for ang in angles:
+            th = math.radians(ang + (rng.uniform(-0.2, 0.2) if rep else 0.0))
+            rad = rng.choice([0.6, 1.0, 1.7])
+            y, x = rad * math.sin(th), rad * math.cos(th)
+            c1, c2 = rng.choice([-2.0, 0.5, 1.5, 3]), rng.choice([-1.25, 0.75, 2])
+            cases = [(["atan2", ["var", 0], ["var", 1]], [y, x]),
+                     # y = c1 * v0, x = v1 + c2, plus a third variable multiplied in: derivatives flow through products
+                     (["mul", ["atan2", ["muls", ["var", 0], c1], ["adds", ["var", 1], c2]], ["var", 2]], [y / c1, x - c2, 1.3]),
+                     (["atan2", ["mul", ["var", 0], ["var", 2]], ["sub", ["var", 1], ["var", 2]]], [y / 0.8, x + 0.8, 0.8])]
+            for t, pt in cases[: (3 if full or rep == 0 else 1)]:
+                if usable(A, t, pt) is None:
+                    continue
+                ctx.count("atan2-band", (json.dumps(t), [round(v_, 6) for v_ in pt]), sample={"tree": t, "x": pt, "angle_deg": ang})
+                ctx.hist("atan2-band", "within 0.1 rad of +-pi/2" if abs(abs(math.degrees(th)) - 90) < 5.7 else "other branch")
+                nfind += report_tree(ctx, A, t, pt, "atan2-band")
+    return nfind
+
+
 _reported = {}
 
 
@@ -662,9 +689,14 @@ def primitive_cases(ctx, P, full):
                     kw["value"] = 1.9
                 yield cls, kw, X, tag
         # dihedrals: prescribed angles around every branch of atan2 plus random ones
-        phis = [0.0, 30, 80, 84, 88, 90, 92, 96, 100, 150, 176, 180, -178, -150, -95, -90, -85, -30, -3]
-        chosen = [math.radians(rng.choice(phis) + rng.uniform(-0.4, 0.4)) for _ in range(4 if full else 3)] + \
-                 [rng.uniform(-math.pi, math.pi)]
+        # atan2 differentiates -atan(x/y) when |phi| is within 0.1 rad of 90 deg (84.3 .. 95.7) and atan(y/x) elsewhere:
+        # every repetition places angles inside that band, at its edges, near 0 and +-180 and at generic values
+        band = [86.0, 90.0, 93.5, -88.0, -91.0]
+        edges = [84.0, 84.6, 95.4, 96.0, -84.0, -96.0]
+        other = [0.0, 3.0, -30.0, 45.0, 150.0, 176.0, 180.0, -178.0, -150.0]
+        jig = lambda a: math.radians(a + (rng.uniform(-0.25, 0.25) if rep else 0.0))   # noqa: E731
+        chosen = [jig(a) for a in (band if full or rep == 0 else rng.sample(band, 2))] + \
+                 [jig(rng.choice(edges)), jig(rng.choice(other)), jig(rng.choice(other)), rng.uniform(-math.pi, math.pi)]
         for cls in ("PrimitiveDihedralAngle", "PrimitiveImproperDihedral"):
             for phi in chosen:
                 for _ in range(80):
@@ -914,19 +946,104 @@ def idpp_case_specs(ctx, rs, full):
 
 def check_idpp_case(IDPP, imgs_coords, k, want_model=True):
     n = imgs_coords[0].shape[0]
-    imgs = [SimpleNamespace(name=f"img{q}", coordinates=np.array(c, float)) for q, c in enumerate(imgs_coords)]
+    imgs = [SimpleNamespace(name=f"img{q}", iteration=0, coordinates=np.array(c, float)) for q, c in enumerate(imgs_coords)]
     idpp = IDPP(imgs)
     im = imgs[k]
     E, G = float(idpp(im)), np.array(idpp.grad(im), float)
     x0 = im.coordinates.flatten()
 
     def f(y):
-        return float(idpp(SimpleNamespace(name=im.name, coordinates=y.reshape(n, 3))))
+        return float(idpp(SimpleNamespace(name=im.name, iteration=0, coordinates=y.reshape(n, 3))))
     fd = FD()
     fd.gradient(f, x0, G.flatten(), what="IDPP.grad", h=fd_step(x0))
     info = {"X": im.coordinates.tolist(), "C": np.array(idpp._req_distance_matrix(im)).tolist(),
             "R": np.array(idpp._distance_matrix(im)).tolist(), "E": E, "G": G.tolist(), "n": n}
     return fd, info
+
+
+def make_real_images(coords):
+    """neb.original.Images built from real species (as the package does); falls back to attribute mocks."""
+    try:
+        from autode.atoms import Atom
+        from autode.species.molecule import Molecule
+        from autode.values import ForceConstant
+        from autode.neb.original import Images
+        images = Images(init_k=ForceConstant(0.1))
+        for x in coords:
+            images.append_species(Molecule(atoms=[Atom("H", *map(float, xi)) for xi in x]))
+        return images, True
+    except Exception:   # noqa: BLE001
+        return [SimpleNamespace(name=f"img{q}", iteration=0, coordinates=np.array(c, float)) for q, c in enumerate(coords)], False
+
+
+def check_idpp_sequence(IDPP, coords, k, geoms, ops):
+    """One IDPP object, one image k: perform ops = [("call"|"grad", geometry index), ...] moving the image's coordinates
+    between geometries WITHOUT any other change; every result must equal a fresh IDPP/image evaluation at the current
+    geometry, and every gradient the finite differences of (fresh) __call__ there.  -> list of failures"""
+    n = np.asarray(coords[0]).shape[0]
+    images, real = make_real_images(coords)
+    idpp = IDPP(images)
+    image = images[k]
+    fails = []
+
+    def fresh(x):
+        im2, _ = make_real_images(coords)
+        i2 = IDPP(im2)
+        im2[k].coordinates = np.array(x, float).reshape(n, 3)
+        return i2, im2[k]
+
+    def fval(y):
+        i2, img = fresh(y)
+        return float(i2(img))
+    for step, (op, gi) in enumerate(ops):
+        x = np.array(geoms[gi], float)
+        image.coordinates = x.reshape(n, 3).copy()
+        i2, img2 = fresh(x)
+        if op == "call":
+            got, want = float(idpp(image)), float(i2(img2))
+            if abs(got - want) > 1e-10 * max(1.0, abs(want)):
+                fails.append({"what": "IDPP.__call__ depends on what was evaluated before", "step": step, "op": op, "geometry": gi,
+                              "got": got, "fresh_object": want})
+        else:
+            got = np.array(idpp.grad(image), float).flatten()
+            want = np.array(i2.grad(img2), float).flatten()
+            if not np.allclose(got, want, rtol=1e-10, atol=1e-10):
+                i_ = int(np.argmax(np.abs(got - want)))
+                fails.append({"what": "IDPP.grad depends on what was evaluated before", "step": step, "op": op, "geometry": gi,
+                              "index": [i_], "got": float(got[i_]), "fresh_object": float(want[i_])})
+            fd = FD()
+            fd.gradient(fval, x.flatten(), got, what=f"IDPP.grad at step {step} (geometry {gi}) vs finite differences of __call__ there",
+                        h=fd_step(x))
+            fails += fd.bad[:3]
+    return fails, real
+
+
+def stream_idpp_sequences(ctx, full):
+    from autode.neb.idpp import IDPP
+    rng = ctx.rng
+    rs = np.random.RandomState(rng.randrange(2 ** 31))
+    nfind = 0
+    patterns = [[("call", 0), ("grad", 1)], [("grad", 0), ("call", 1), ("grad", 1)], [("call", 0), ("call", 1), ("grad", 1)],
+                [("grad", 0), ("grad", 1)], [("call", 0), ("grad", 0), ("grad", 1), ("call", 2), ("grad", 2)],
+                [("call", 0), ("grad", 1), ("call", 1), ("grad", 0)]]
+    for rep in range(5 if full else 1):
+        for ops in patterns:
+            n, nimg = rng.choice([3, 4, 5]), rng.choice([3, 4, 5])
+            coords = [rand_geometry(rs, n) for _ in range(nimg)]
+            k = rng.randrange(1, nimg)
+            base = coords[k]
+            geoms = [base] + [base + rs.uniform(-0.2, 0.2, size=base.shape) for _ in range(2)]
+            rep_ = {"kind": "idpp-seq", "images": [c_.tolist() for c_ in coords], "k": k, "geometries": [g_.tolist() for g_ in geoms],
+                    "ops": [list(o) for o in ops]}
+            ctx.count("idpp-seq", (json.dumps(ops), n, nimg, k, base.round(5).tolist()), sample={"ops": ops, "n_atoms": n, "image": k})
+            fails, real = check_idpp_sequence(IDPP, coords, k, geoms, ops)
+            ctx.hist("idpp-seq", "real neb.original.Image" if real else "attribute mock")
+            if fails:
+                rep_["failures"] = fails[:6]
+                f0 = fails[0]
+                nfind += report(ctx, "idpp|sequence", f"IDPP on one image, operations {ops} (coordinates moved between geometries): "
+                                f"{f0['what']} {json.dumps({k_: v_ for k_, v_ in f0.items() if k_ != 'what'})}", rep_)
+    return nfind
 
 
 def cconf_case_specs(ctx, rs, full):
@@ -1160,6 +1277,9 @@ def impl_oracles(ctx, A, P, tinfo, full):
     nfind += n
     coq["trees-qc"] = (t, d)
     ctx.log(f"expression trees: {n} failures")
+    n = stream_atan2_band(ctx, A, full)
+    nfind += n
+    ctx.log(f"atan2 trees around +-pi/2: {n} failures")
     if tinfo is not None:
         n = stream_triples(ctx, A, tinfo)
         nfind += n
@@ -1172,6 +1292,9 @@ def impl_oracles(ctx, A, P, tinfo, full):
     nfind += n
     coq["pairs-qc"] = (t, d)
     ctx.log(f"IDPP / cconf_gen: {n} failures")
+    n = stream_idpp_sequences(ctx, full)
+    nfind += n
+    ctx.log(f"IDPP call/grad sequences on one image: {n} failures")
     n = stream_cpp(ctx, full)
     nfind += n
     ctx.log(f"C++ minimisers: {n} failures")
@@ -1261,6 +1384,10 @@ def replay(ctx, obj):
         from autode.neb.idpp import IDPP
         fd, _ = check_idpp_case(IDPP, [np.array(c, float) for c in r["images"]], r["k"])
         bad = fd.bad
+    elif kind == "idpp-seq":
+        from autode.neb.idpp import IDPP
+        bad, _ = check_idpp_sequence(IDPP, [np.array(c, float) for c in r["images"]], r["k"],
+                                     [np.array(g, float) for g in r["geometries"]], [tuple(o) for o in r["ops"]])
     elif kind == "cconf":
         import cconf_gen
         fd, _, _ = check_cconf_case(cconf_gen, np.array(r["coords"], float), np.array(r["bond_matrix"], dtype=np.intc),
